@@ -221,9 +221,16 @@ func racePhase(rep *report, seed uint64, models, nops, only int, scratch string)
 		for _, T := range threadCounts {
 			lists := make([][]roOp, T)
 			exportsInRound := 0
+			// shorter lists for more goroutines: about the same work per round
+			per := nops
+			if T == 2 {
+				per = nops * 3 / 2
+			} else if T == 32 {
+				per = nops * 2 / 5
+			}
 			for g := 0; g < T; g++ {
 				gr := r.fork(uint64(g + 1))
-				for k := 0; k < nops; k++ {
+				for k := 0; k < per; k++ {
 					op := t.genOp(gr)
 					if op.free != 0 {
 						exportsInRound++
@@ -258,7 +265,7 @@ func racePhase(rep *report, seed uint64, models, nops, only int, scratch string)
 			wg.Wait()
 			h1, _ := snapshotHash(roots)
 			rep.counters["race_rounds"]++
-			rep.counters["race_ops"] += T * nops
+			rep.counters["race_ops"] += T * per
 			rep.hist[fmt.Sprintf("threads=%d", T)]++
 			if shared && exportsInRound > 0 {
 				rep.counters["race_rounds_nontrivial"]++
@@ -422,7 +429,7 @@ func errorPathStorm(rep *report, w *world, r *rng, idx int, roots []any) {
 		go func(g int) {
 			defer wg.Done()
 			<-start
-			for k := 0; k < 3*len(calls); k++ {
+			for k := 0; k < 2*len(calls); k++ {
 				i := gr.intn(len(calls))
 				if got := safe(calls[i]); got != seq[i] && bad[g] == "" {
 					bad[g] = fmt.Sprintf("call %d: sequential %q, concurrent %q", i, seq[i], got)
@@ -434,7 +441,7 @@ func errorPathStorm(rep *report, w *world, r *rng, idx int, roots []any) {
 	wg.Wait()
 	h1, _ := snapshotHash(roots)
 	rep.counters["errorpath_storm_rounds"]++
-	rep.counters["race_ops"] += T * 3 * len(calls)
+	rep.counters["race_ops"] += T * 2 * len(calls)
 	if h1 != h0 {
 		rep.fail("errorpath-storm-snapshot-changed", fmt.Sprintf("model=%d: the shared model differs after concurrent failing lookups", idx))
 	}
